@@ -26,6 +26,7 @@ import (
 	"github.com/cocosip/go-dicom-codecs/jpeg/standard"
 	"github.com/cocosip/go-dicom-codecs/jpeg2000"
 	"github.com/cocosip/go-dicom-codecs/jpeg2000/htj2k"
+	"github.com/cocosip/go-dicom-codecs/jpeg2000/t1"
 	jls "github.com/cocosip/go-dicom-codecs/jpegls/lossless"
 	"github.com/cocosip/go-dicom-codecs/jpegls/nearlossless"
 	"github.com/cocosip/go-dicom-codecs/rle"
@@ -433,6 +434,21 @@ func c16J2KCases(c *hx.Ctx) []*c16Case {
 	if c.Thorough() {
 		n = 2500
 	}
+	// zero decomposition levels, reversible and irreversible (COD must declare the transform that was asked for even
+	// when no DWT runs), classic and HT, 1 and 3 components — first, so that their main headers are compared too
+	for _, ll := range []bool{false, true} {
+		for _, comps := range []int{1, 3} {
+			for _, ht := range []bool{false, true} {
+				ll, ht := ll, ht
+				add(19, 13, comps, 8, false, func(p *jpeg2000.EncodeParams) {
+					p.Lossless, p.NumLevels, p.Quality = ll, 0, 70
+					if ht {
+						p.HTJ2KMode, p.ProgressionOrder = true, 2
+					}
+				}, "noise")
+			}
+		}
+	}
 	// boundary geometries, all five progressions, reversible and irreversible, single tile
 	for po := 0; po < 5; po++ {
 		for _, ll := range []bool{true, false} {
@@ -607,6 +623,7 @@ func c16Run(c *hx.Ctx) {
 	c16StrictLines(c, cases, results)
 	c16SelfTest(c, cases, results)
 	c16Pieces(c, cases, results)
+	c16LayerCuts(c)
 }
 
 // c16SelfTest: the JPEG 2000 walker must reject streams whose framing is off by a little; a mutant that is
@@ -991,5 +1008,72 @@ func c16StrictLines(c *hx.Ctx, cases []*c16Case, results []*c16Result) {
 			d[p] = byte(r.Intn(256))
 		}
 		line(d)
+	}
+}
+
+// c16LayerCuts: real layered code-blocks through the exported t1 API (`NewT1Encoder(..).EncodeLayered`): the cumulative
+// pass rates it returns (after normalizePassRates) against the bytes of the block.  Property: every rate is inside the
+// stream, not immediately after an 0xFF byte, and the rates ascend — so no layer slice ends on 0xFF.  Correspondence:
+// the Lean model of normalizePassRates (T1.normalizeRates) must leave the real rates unchanged and agree on the verdict.
+func c16LayerCuts(c *hx.Ctx) {
+	r := c.R
+	n := 150
+	if c.Thorough() {
+		n = 1500
+	}
+	for i := 0; i < n; i++ {
+		w, h := r.Range(1, 24), r.Range(1, 24)
+		style := r.Pick([]int{0, 0, 0, 4, 1, 5, 2, 8, 32})
+		depth := r.Range(1, 12)
+		coeffs := make([]int32, w*h)
+		for k := range coeffs {
+			v := int32(r.Intn(1 << uint(depth)))
+			if r.Intn(3) == 0 {
+				v = int32(1<<uint(depth)) - 1 // long runs of ones make 0xFF bytes frequent
+			}
+			if r.Bool() {
+				v = -v
+			}
+			coeffs[k] = v
+		}
+		numPasses := r.Range(1, 3*depth)
+		var passes []t1.PassData
+		var data []byte
+		var err error
+		p, _ := hx.Guard(func() {
+			enc := t1.NewT1Encoder(w, h, style)
+			enc.SetOrientation(r.Intn(4))
+			passes, data, err = enc.EncodeLayered(coeffs, numPasses, 0, nil, uint8(style))
+		})
+		if p || err != nil || len(passes) == 0 {
+			c.Count("layer-cuts:skipped")
+			continue
+		}
+		rates := make([]int, len(passes))
+		ok := true
+		ff := 0
+		prev := 0
+		for k, ps := range passes {
+			rates[k] = ps.Rate
+			if ps.Rate < prev || ps.Rate > len(data) || (ps.Rate > 0 && data[ps.Rate-1] == 0xFF) {
+				ok = false
+			}
+			prev = ps.Rate
+		}
+		for _, b := range data {
+			if b == 0xFF {
+				ff++
+			}
+		}
+		c.Count(fmt.Sprintf("layer-cuts:style%d", style))
+		if ff > 0 {
+			c.Count("layer-cuts:stream-has-0xFF")
+		}
+		c.Eval(fmt.Sprintf("layer-cuts %d %dx%d s%d p%d", i, w, h, style, numPasses), len(passes) >= 2 && len(data) >= 4)
+		if !ok {
+			c.Fail(hx.Failure{Class: fmt.Sprintf("c16-t1-rate-after-ff-style%d", style), What: "a cumulative pass rate is past the data, descending, or immediately after an 0xFF byte: a layer slice cut there ends on 0xFF",
+				Input: map[string]any{"w": w, "h": h, "style": style, "numPasses": numPasses, "coeffs": coeffs, "rates": rates, "data_hex": hx.Hex(data)}})
+		}
+		c.Case(fmt.Sprintf("c16-layer-cuts %s %s", c16Ints(rates), hx.Hex(data)), fmt.Sprintf("ok %s %d", c16Ints(rates), c16B(ok)))
 	}
 }
